@@ -196,24 +196,27 @@ example : (runOps pinned Discovery.init (hist1.take 7)).1.adj = [] := by decide
 
 /-! ## Flood bits -/
 
-/-- FLOOD_PORTS, PARTIAL (code with D20 and C19-1, WITHOUT the repair C19-2): only the switches of the tree — see `flood_ports_full`.  After every history, for every op that changes the adjacency (raises a LinkEvent): if the new
-adjacency has no self-links (and `order` is an enumeration of its switches), `_calc_spanning_tree` returns a tree `t` of the NEW
-adjacency, and for every switch of that tree that has a connection, every port below `OFPP_MAX` has `_prev` equal to
-"is a tree port, or is an edge port": tree ports and host-facing ports flood, every other inter-switch port does not. -/
-theorem flood_ports_partial (ops : List Op) (op : Op) :
-    let s := (runOps fixed Discovery.init ops).1
-    let s' := (step fixed s op).1
-    (step fixed s op).2.events ≠ [] → (∀ l ∈ keys s'.adj, l.dpid1 ≠ l.dpid2) →
-    (∀ x ∈ switchesOf (keys s'.adj), x ∈ orderOf op) →
-    ∃ t, calcTreeL (keys s'.adj) (orderOf op) = .ok t ∧
-      ∀ sw ∈ treeKeys t, ∀ ports, s'.conns.get sw = some ports → ∀ p ∈ ports, p < OFPP_MAX →
-        s'.prev.get (sw, p) = some (decide (p ∈ treePorts t sw) || isEdgePort (keys s'.adj) sw p) := by
-  intro s s' hev hns hord
-  obtain ⟨es, hes, _, hbi, _⟩ := calcEdges_correct (keys s'.adj) hns
-  obtain ⟨t, ht, _, _⟩ := withPorts_ok (keys s'.adj) (orderOf op) es hbi
-  have hct : calcTreeL (keys s'.adj) (orderOf op) = .ok t := by
-    rw [calcTreeL_eq _ _ hord]; unfold calcTree; rw [hes]; exact ht
-  exact ⟨t, hct, fun sw hsw ports hp p hpp hlt => step_fixed_flood s op hev t hct sw hsw ports hp p hpp hlt⟩
+/-- the statement of FLOOD_PORTS for a variant `v` of the handlers: every connected switch, in the tree or not -/
+def flood_ports_full (v : Variant) : Prop :=
+  ∀ (ops : List Op) (op : Op),
+    (step v (runOps v Discovery.init ops).1 op).2.events ≠ [] →
+    (∀ l ∈ keys (step v (runOps v Discovery.init ops).1 op).1.adj, l.dpid1 ≠ l.dpid2) →
+    (∀ x ∈ switchesOf (keys (step v (runOps v Discovery.init ops).1 op).1.adj), x ∈ orderOf op) →
+    ∃ t, calcTreeL (keys (step v (runOps v Discovery.init ops).1 op).1.adj) (orderOf op) = .ok t ∧
+      ∀ sw ports, (step v (runOps v Discovery.init ops).1 op).1.conns.get sw = some ports → ∀ p ∈ ports, p < OFPP_MAX →
+        (step v (runOps v Discovery.init ops).1 op).1.prev.get (sw, p) =
+          some (decide (p ∈ treePorts t sw) || isEdgePort (keys (step v (runOps v Discovery.init ops).1 op).1.adj) sw p)
+
+/-- FLOOD_PORTS (the tree as it is: D20, C19-1 and C19-2 applied = variant `full`).  After every history, for every op that changes the
+adjacency (raises a LinkEvent): if the new adjacency has no self-links and `order` enumerates its switches, `_calc_spanning_tree`
+returns a tree `t` of the NEW adjacency and, for EVERY connected switch — in the tree or not — every port below `OFPP_MAX` has `_prev`
+equal to "is a tree port, or is an edge port": tree ports and host-facing ports flood, every other inter-switch port does not. -/
+theorem flood_ports : flood_ports_full full := by
+  intro ops op hev hns hord
+  obtain ⟨t, ht⟩ := calcTreeL_ok _ (orderOf op) hns hord
+  refine ⟨t, ht, ?_⟩
+  intro sw ports hp p hpp hlt
+  exact step_rep_flood full rfl rfl _ op hev t ht sw (visited_of true t _ sw ports hp (.inl rfl)) ports hp p hpp hlt
 
 /-- PORT_MODS = CHANGES.  One `_update_tree()` from any `_prev`: a port_mod is sent for (switch, port) iff its `_prev` entry changes,
 every port_mod carries the new value, and a flood state that agreed with `_prev` before agrees with it after the port_mods are applied. -/
@@ -247,27 +250,21 @@ theorem bits_are_prev (v : Variant) (ops : List Op) (k : Nat × Nat) :
     (bitsRun v Discovery.init [] ops).get k = (runOps v Discovery.init ops).1.prev.get k :=
   run_bits v ops Discovery.init [] (fun _ => rfl) k
 
-/-- FLOOD_PORTS on the switches: `flood_ports` with `_prev` replaced by the NO_FLOOD bits that the port_mods sent over the whole
-history (`ops` then `op`) leave on the switches. -/
-theorem flood_bits (ops : List Op) (op : Op) :
-    let s' := (runOps fixed Discovery.init (ops ++ [op])).1
-    (step fixed (runOps fixed Discovery.init ops).1 op).2.events ≠ [] → (∀ l ∈ keys s'.adj, l.dpid1 ≠ l.dpid2) →
-    (∀ x ∈ switchesOf (keys s'.adj), x ∈ orderOf op) →
-    ∃ t, calcTreeL (keys s'.adj) (orderOf op) = .ok t ∧
-      ∀ sw ∈ treeKeys t, ∀ ports, s'.conns.get sw = some ports → ∀ p ∈ ports, p < OFPP_MAX →
-        (bitsRun fixed Discovery.init [] (ops ++ [op])).get (sw, p) =
-          some (decide (p ∈ treePorts t sw) || isEdgePort (keys s'.adj) sw p) := by
-  intro s'
-  have e : s' = (step fixed (runOps fixed Discovery.init ops).1 op).1 := runOps_snoc fixed ops Discovery.init op
-  intro hev hns hord
-  rw [e] at hns hord
-  obtain ⟨t, ht, hg⟩ := flood_ports_partial ops op hev hns hord
-  refine ⟨t, by rw [e]; exact ht, ?_⟩
-  intro sw hsw ports hp p hpp hlt
-  rw [bits_are_prev]
-  show s'.prev.get (sw, p) = _
-  rw [e] at hp ⊢
-  exact hg sw hsw ports hp p hpp hlt
+/-- FLOOD_PORTS on the switches: `flood_ports` with `_prev` replaced by the NO_FLOOD bits that the port_mods sent over the whole history
+(`ops` then `op`) leave on the switches (`bits_are_prev`), for every connected switch. -/
+theorem flood_bits (ops : List Op) (op : Op)
+    (hev : (step full (runOps full Discovery.init ops).1 op).2.events ≠ [])
+    (hns : ∀ l ∈ keys (step full (runOps full Discovery.init ops).1 op).1.adj, l.dpid1 ≠ l.dpid2)
+    (hord : ∀ x ∈ switchesOf (keys (step full (runOps full Discovery.init ops).1 op).1.adj), x ∈ orderOf op) :
+    ∃ t, calcTreeL (keys (step full (runOps full Discovery.init ops).1 op).1.adj) (orderOf op) = .ok t ∧
+      ∀ sw ports, (step full (runOps full Discovery.init ops).1 op).1.conns.get sw = some ports → ∀ p ∈ ports, p < OFPP_MAX →
+        (bitsRun full Discovery.init [] (ops ++ [op])).get (sw, p) =
+          some (decide (p ∈ treePorts t sw) || isEdgePort (keys (step full (runOps full Discovery.init ops).1 op).1.adj) sw p) := by
+  obtain ⟨t, ht, hg⟩ := flood_ports ops op hev hns hord
+  refine ⟨t, ht, ?_⟩
+  intro sw ports hp p hpp hlt
+  rw [bits_are_prev, runOps_snoc]
+  exact hg sw ports hp p hpp hlt
 
 /-- Reading of the flood bit established by `flood_ports`: a host-facing port floods; an inter-switch port floods iff it is one of
 the two ends of a tree edge (which by `tree_is_forest` is a bidirectional link, and the tree edges form a spanning forest). -/
@@ -280,42 +277,7 @@ theorem flood_ports_forest (adj : List Link) (t : List TEdge) (hne : ∀ e ∈ t
   · intro h; simp [h]
   · intro h; simp [h, mem_treePorts t sw p hne]
 
-/-! ### the full statement, the repair C19-2, and "keeps" -/
-
-/-- FLOOD_PORTS, FULL: as `flood_ports_partial`, but for EVERY connected switch, in the tree or not — what the property asks for. -/
-def flood_ports_full (v : Variant) : Prop :=
-  ∀ (ops : List Op) (op : Op),
-    (step v (runOps v Discovery.init ops).1 op).2.events ≠ [] →
-    (∀ l ∈ keys (step v (runOps v Discovery.init ops).1 op).1.adj, l.dpid1 ≠ l.dpid2) →
-    (∀ x ∈ switchesOf (keys (step v (runOps v Discovery.init ops).1 op).1.adj), x ∈ orderOf op) →
-    ∃ t, calcTreeL (keys (step v (runOps v Discovery.init ops).1 op).1.adj) (orderOf op) = .ok t ∧
-      ∀ sw ports, (step v (runOps v Discovery.init ops).1 op).1.conns.get sw = some ports → ∀ p ∈ ports, p < OFPP_MAX →
-        (step v (runOps v Discovery.init ops).1 op).1.prev.get (sw, p) =
-          some (decide (p ∈ treePorts t sw) || isEdgePort (keys (step v (runOps v Discovery.init ops).1 op).1.adj) sw p)
-
-/-- With the repair C19-2 (`_update_tree` goes through every connected switch) the full statement holds. -/
-theorem flood_ports_full_repaired : flood_ports_full full := by
-  intro ops op hev hns hord
-  obtain ⟨t, ht⟩ := calcTreeL_ok _ (orderOf op) hns hord
-  refine ⟨t, ht, ?_⟩
-  intro sw ports hp p hpp hlt
-  exact step_rep_flood full rfl rfl _ op hev t ht sw (visited_of true t _ sw ports hp (.inl rfl)) ports hp p hpp hlt
-
-/-- two switches joined by two one-way cables, 1.1→2.1 and 2.2→1.2 -/
-def witnessLoopOps : List Op := [.up 1 [1, 2, 3], .up 2 [1, 2, 3], .probe ⟨1, 1, 2, 1⟩ [1, 2]]
-def witnessLoopOp : Op := .probe ⟨2, 2, 1, 2⟩ [1, 2]
-
-/-- Without it the full statement is false (open defect of the code before the repair, besides C19-2): the tree is empty, no switch is
-in the tree, no port_mod is ever sent, and all four inter-switch ports keep flooding — a flooding loop over the two one-way cables. -/
-theorem flood_ports_defect_oneway_loop : ¬ flood_ports_full fixed := by
-  intro h
-  obtain ⟨t, ht, hg⟩ := h witnessLoopOps witnessLoopOp (by decide) (by decide) (by decide)
-  have hc : (calcTreeL (keys (step fixed (runOps fixed Discovery.init witnessLoopOps).1 witnessLoopOp).1.adj)
-      (orderOf witnessLoopOp)).toOption = some [] := by decide
-  rw [ht] at hc
-  have e : t = [] := by simpa [Except.toOption] using hc
-  subst e
-  exact absurd (hg 1 [1, 2, 3] (by decide) 1 (by decide) (by decide)) (by decide)
+/-! ### "keeps" -/
 
 /-- KEEPS (item "after every change … keeps").  For the repaired handlers and every well-formed history (ConnectionUp only for a
 switch that is not connected, PacketIns only from connected switches, no cable from a switch to itself, `order` enumerates the
@@ -329,7 +291,7 @@ theorem flood_keeps (v : Variant) (hp : v.popFirst = true) (hs : v.skip = false)
   run_keeps v hp hs ops Discovery.init (Discovery.init_inv v.visitAll).1 (Discovery.init_inv v.visitAll).2 hv
 
 /-- non-vacuity of `validOps`: the D20 history is well-formed, for the code with and without the repair C19-2 -/
-example : validOps full Discovery.init witnessLoopOps ∧ validOps fixed Discovery.init witnessLoopOps := by decide
+example : validOps full Discovery.init [.up 1 [1, 2, 3], .up 2 [1, 2, 3], .probe ⟨1, 1, 2, 1⟩ [1, 2], .probe ⟨2, 2, 1, 2⟩ [1, 2], .tick 500, .sweep [1, 2]] := by decide
 
 /-! ### which cables carry a flood -/
 
@@ -360,6 +322,46 @@ theorem reach_unique (adj : List Link) (order : List Nat) (hns : ∀ l ∈ adj, 
   exact hconn a b
 
 example : PtP triAdj := by decide
+
+/-! ## Reverted tree: regression witnesses
+
+What is left of the statements, and what breaks, when a repair is taken out again: `fixed` = without C19-2 (`_update_tree` goes through
+the switches of the tree only), `pinned` = without D20 and C19-1 as well. -/
+
+/-- Without C19-2, FLOOD_PORTS holds only for the switches of the tree (`flood_ports_full fixed` is false: `flood_ports_defect_oneway_loop`).  After every history, for every op that changes the adjacency (raises a LinkEvent): if the new
+adjacency has no self-links (and `order` is an enumeration of its switches), `_calc_spanning_tree` returns a tree `t` of the NEW
+adjacency, and for every switch of that tree that has a connection, every port below `OFPP_MAX` has `_prev` equal to
+"is a tree port, or is an edge port": tree ports and host-facing ports flood, every other inter-switch port does not. -/
+theorem flood_ports_partial (ops : List Op) (op : Op) :
+    let s := (runOps fixed Discovery.init ops).1
+    let s' := (step fixed s op).1
+    (step fixed s op).2.events ≠ [] → (∀ l ∈ keys s'.adj, l.dpid1 ≠ l.dpid2) →
+    (∀ x ∈ switchesOf (keys s'.adj), x ∈ orderOf op) →
+    ∃ t, calcTreeL (keys s'.adj) (orderOf op) = .ok t ∧
+      ∀ sw ∈ treeKeys t, ∀ ports, s'.conns.get sw = some ports → ∀ p ∈ ports, p < OFPP_MAX →
+        s'.prev.get (sw, p) = some (decide (p ∈ treePorts t sw) || isEdgePort (keys s'.adj) sw p) := by
+  intro s s' hev hns hord
+  obtain ⟨es, hes, _, hbi, _⟩ := calcEdges_correct (keys s'.adj) hns
+  obtain ⟨t, ht, _, _⟩ := withPorts_ok (keys s'.adj) (orderOf op) es hbi
+  have hct : calcTreeL (keys s'.adj) (orderOf op) = .ok t := by
+    rw [calcTreeL_eq _ _ hord]; unfold calcTree; rw [hes]; exact ht
+  exact ⟨t, hct, fun sw hsw ports hp p hpp hlt => step_fixed_flood s op hev t hct sw hsw ports hp p hpp hlt⟩
+
+/-- two switches joined by two one-way cables, 1.1→2.1 and 2.2→1.2 -/
+def witnessLoopOps : List Op := [.up 1 [1, 2, 3], .up 2 [1, 2, 3], .probe ⟨1, 1, 2, 1⟩ [1, 2]]
+def witnessLoopOp : Op := .probe ⟨2, 2, 1, 2⟩ [1, 2]
+
+/-- Without it the full statement is false (open defect of the code before the repair, besides C19-2): the tree is empty, no switch is
+in the tree, no port_mod is ever sent, and all four inter-switch ports keep flooding — a flooding loop over the two one-way cables. -/
+theorem flood_ports_defect_oneway_loop : ¬ flood_ports_full fixed := by
+  intro h
+  obtain ⟨t, ht, hg⟩ := h witnessLoopOps witnessLoopOp (by decide) (by decide) (by decide)
+  have hc : (calcTreeL (keys (step fixed (runOps fixed Discovery.init witnessLoopOps).1 witnessLoopOp).1.adj)
+      (orderOf witnessLoopOp)).toOption = some [] := by decide
+  rw [ht] at hc
+  have e : t = [] := by simpa [Except.toOption] using hc
+  subst e
+  exact absurd (hg 1 [1, 2, 3] (by decide) 1 (by decide) (by decide)) (by decide)
 
 /-! ### witnesses -/
 
@@ -399,6 +401,21 @@ example : ((updateTree false triAdj [1, 2, 3, 4] [(1, [1, 2, 4]), (2, [1, 2, 4])
 example : (bitsRun fixed Discovery.init [] witnessD20).get (2, 2) = some true ∧
     (bitsRun pinned Discovery.init [] witnessD20).get (2, 2) = some false := by decide
 
+/-- every host-facing port (below `OFPP_MAX`) of every connected switch — in the tree or not — has flooding on -/
+def hostPortsOpen (s : DState) : Bool :=
+  s.conns.all fun c => c.2.all fun p =>
+    !(decide (p < OFPP_MAX)) || !(isEdgePort (keys s.adj) c.1 p) || !(s.prev.get (c.1, p) == some false)
+
+/-- non-vacuity of `flood_ports` / positive control: on the same histories the tree as it is (`full`) leaves every connected switch right —
+the two-one-way-cables loop is closed and the host-facing port of the switch that dropped out of the tree is open again -/
+example :
+    (let s := (runOps full Discovery.init (witnessLoopOps ++ [witnessLoopOp])).1
+     floodOkBv true (keys s.adj) [1, 2] s.conns s.prev) = true ∧
+    (let s := (runOps full Discovery.init witnessOutside).1
+     floodOkBv true (keys s.adj) [1, 2, 3, 4] s.conns s.prev && hostPortsOpen s) = true ∧
+    (let s := (runOps full Discovery.init witnessD20).1
+     floodOkBv true (keys s.adj) [1, 2, 3, 4] s.conns s.prev) = true := by decide
+
 /-- D20 (defect of the code before the repair): after the sweep the live link 2-3 must join the tree, but `_handle_LinkEvent`
 recomputed the tree while the dead links were still in `adjacency` and nothing recomputes it afterwards: port 2.2 / 3.1 stay NO_FLOOD. -/
 theorem flood_ports_defect_D20 :
@@ -415,14 +432,9 @@ theorem flood_ports_defect_skip :
   intro s h
   exact absurd (floodOkB_of_FloodOK _ _ _ _ h) (by decide)
 
-/-- every host-facing port (below `OFPP_MAX`) of every connected switch — in the tree or not — has flooding on -/
-def hostPortsOpen (s : DState) : Bool :=
-  s.conns.all fun c => c.2.all fun p =>
-    !(decide (p < OFPP_MAX)) || !(isEdgePort (keys s.adj) c.1 p) || !(s.prev.get (c.1, p) == some false)
-
-/-- C19-2 (open, also in the repaired code): `_update_tree` only visits switches that are in the tree.  Switch 2 drops out of the
+/-- C19-2 (defect without the repair C19-2): `_update_tree` only visits switches that are in the tree.  Switch 2 drops out of the
 tree with port 2 (formerly the blocked end of 2-3) still NO_FLOOD; the port is host-facing now and nothing re-enables it.  This is
-why `flood_ports` is stated for the switches of the tree. -/
+why `flood_ports_partial` can only be stated for the switches of the tree. -/
 theorem flood_ports_defect_outside_tree :
     hostPortsOpen (runOps fixed Discovery.init witnessOutside).1 = false ∧
     floodOkAfter fixed witnessOutside = true := by decide
